@@ -261,6 +261,20 @@ def execute_hist(case):
                         'extra %r missing %r changed %r' % (
                             r["owner"], extra[:5], missing[:5], changed[:5])))
                 args = r["args"]
+                if wc.get("tagged") and r.get("pid") is not None:
+                    # the command line refers to a variable of the watcher's
+                    # environment: substituted with the value configured now
+                    tag = None
+                    for i_, a_ in enumerate(args or []):
+                        if a_ == '--tag' and i_ + 1 < len(args):
+                            tag = args[i_ + 1]
+                    want_tag = (wc.get("env") or {}).get("VERIF_A")
+                    if tag != want_tag:
+                        viols.append(Violation(
+                            'C13:argv:stale-env-value',
+                            'worker of %s runs with --tag %r while the '
+                            'watcher\'s environment says VERIF_A=%r (argv %r)'
+                            % (r["owner"], tag, want_tag, args)))
                 if r.get("pid") is not None:
                     wid = _wid_of(args)
                     if wid is None or wid < 1:
@@ -283,6 +297,15 @@ def execute_hist(case):
                     seen[wid] = pid
 
         def on_op(h_, i, op):
+            if op[0] == 'req' and op[1] == 'set' and \
+                    isinstance(op[2].get("options"), dict) and \
+                    "env" in op[2]["options"]:
+                rep = h_.reqs[i].reply()
+                if rep is None or rep.get("status") == "ok":
+                    wc_ = wcfg.get(op[2].get("name"))
+                    if wc_ is not None:
+                        wc_["env"] = dict(op[2]["options"]["env"])
+                        classes.add('env-changed-at-run-time')
             check_spawns()
             if not viols:
                 check_wids()
@@ -449,6 +472,19 @@ def _hist_strategy():
         c = draw(base)
         for wc in c["watchers"]:
             wc["cmd"] = "worker --name %s --wid $(circus.wid)" % wc["name"]
+            if not wc.get("copy_env") and draw(st.booleans()):
+                # the command line refers to the watcher's own environment,
+                # which `set` changes at run time
+                wc["tagged"] = True
+                wc["env"] = dict(wc.get("env") or {}, VERIF_A="1")
+                wc["cmd"] = ("worker --name %s --tag $(circus.env.VERIF_A) "
+                             "--wid $(circus.wid)" % wc["name"])
+                for _ in range(draw(st.integers(0, 2))):
+                    pos = draw(st.integers(0, len(c["ops"])))
+                    c["ops"].insert(pos, ["req", "set", {
+                        "name": wc["name"], "options": {"env": {
+                            "VERIF_A": draw(st.sampled_from(
+                                ["two", "x9", "1"]))}}}])
         c["daemon_env"] = {"VERIF_DAEMON_ONLY": "d1"}
         return c
     return case()
